@@ -254,10 +254,16 @@ class Mesh:
 
     @staticmethod
     def _mask_to_indices(ix):
-        """A Boolean mask is stored as the indices of its true entries (every
-        reader of the tags takes them as index arrays)."""
-        if (isinstance(ix, ndarray) and ix.dtype == bool
-                and not isinstance(ix, OrientedBoundary)):
+        """A tag is stored as an index array (every reader of the tags takes
+        them as such): a Boolean mask as the indices of its true entries, a
+        list or a tuple as the array of its entries."""
+        if isinstance(ix, OrientedBoundary):
+            return ix
+        if not isinstance(ix, ndarray):
+            ix = np.asarray(ix)
+            if ix.size == 0:
+                ix = ix.astype(np.int32)
+        if ix.dtype == bool:
             return np.nonzero(ix)[0].astype(np.int32)
         return ix
 
